@@ -80,8 +80,10 @@ PROPS = {
             "Meddly.DD.unionFull_eq_apply2", "Meddly.DD.interFull_eq_apply2", "Meddly.DD.diffFull_eq_apply2",
             "Meddly.DD.applySkip_eq_apply2",
         ],
-        "quick": [fam("setops")],
-        "thorough": [fam("setops", "asan")],
+        # third run: SCREENING (DESIGN 8c) - 60 000 (thorough 600 000) cases searched by a harness-side pointwise test + the
+        # harness-side recount of every dump; suspicious cases and every 400th are written out for the acceptor
+        "quick": [fam("setops"), fam("setops", screen=400, cases=60000)],
+        "thorough": [fam("setops", "asan"), fam("setops", screen=400, cases=600000)],
         # minimised past failures (both repaired by fix: commits), replayed first on every run
         "corpus": [fam("setops", seed=1, case=9), fam("setops", seed=2, case=19)],
         "design_ref": "DESIGN.md §5 C04",
